@@ -33,8 +33,8 @@
 //!   both rows: op_index < max_ops (6.2.2), address_offset a multiple of min_inst_len (debug_assert of op_advance; the
 //!   previous row went through the same check), (address_offset, op_index) not decreasing ("Panics if the address_offset
 //!   decreases"), prev_row after the per-row reset; base + row.address_offset fits 64 bits; file index < usize::MAX
-//!   EXCL F-wline-1: line_range <= 127  (`line_range as i8` in the debug_assert)  -> the unrestricted domain is
-//!                   k_linegen_f_range128, which FAILS on the pinned tree (registered disabled / known finding)
+//!   F-wline-1 (`line_range as i8`) was FIXED in /repo (a69c496): line_range is fully symbolic 1..=255 in every registered
+//!                   harness; k_linegen_f_range128 (the former finding harness) is kept unregistered.
 //!   EXCL F-wline-2: both lines < 2^63  (`line as i64`)
 //!   EXCL F-wline-3: address advance < 2^48 (op_advance * line_range overflows from 2^56 on); NOT a CBMC bound: the
 //!                   2^48 harnesses cost the same as 2^16 ones.  The grid of the property text (line advance -300..300 x
@@ -328,7 +328,7 @@ fn any_header(min_len: u8, max_ops: u8, range_le_127: bool) -> (Encoding, LineEn
 }
 
 /// the invariant of the writer's (prev_row, row) pair + the documented preconditions of generate_row / end_sequence
-fn assume_rows(h: &Hdr, prev: &LineRow, row: &LineRow, base: u64, adv_bound: Option<u64>) {
+fn assume_rows(h: &Hdr, prev: &LineRow, row: &LineRow, base: u64, adv_bound: Option<u64>, lines_lt_2_63: bool) {
     let min_len = h.min_inst_len as u64;
     let max_ops = h.max_ops as u64;
     // 6.2.2: op_index < maximum_operations_per_instruction
@@ -347,7 +347,9 @@ fn assume_rows(h: &Hdr, prev: &LineRow, row: &LineRow, base: u64, adv_bound: Opt
     // FileId is an index into the file table; raw() adds 1 for version <= 4
     kani::assume(prev.file.index() < usize::MAX && row.file.index() < usize::MAX);
     // EXCL F-wline-2
-    kani::assume(prev.line < (1u64 << 63) && row.line < (1u64 << 63));
+    if lines_lt_2_63 {
+        kani::assume(prev.line < (1u64 << 63) && row.line < (1u64 << 63));
+    }
     // EXCL F-wline-3 (needs < 2^56) / bound of the harness
     if let Some(b) = adv_bound {
         kani::assume(row.address_offset - prev.address_offset < b);
@@ -367,11 +369,15 @@ fn program(encoding: Encoding, line_encoding: LineEncoding, prev: LineRow, row: 
 
 // ------------------------------------------------------------------------------------------------ the check
 fn check_row(min_len: u8, max_ops: u8, range_le_127: bool, adv_bound: Option<u64>, probes: bool) {
+    check_row_dom(min_len, max_ops, range_le_127, adv_bound, true, probes)
+}
+
+fn check_row_dom(min_len: u8, max_ops: u8, range_le_127: bool, adv_bound: Option<u64>, lines_lt_2_63: bool, probes: bool) {
     let (encoding, line_encoding, h) = any_header(min_len, max_ops, range_le_127);
     let prev = any_row();
     let row = any_row();
     let base: u64 = kani::any();
-    assume_rows(&h, &prev, &row, base, adv_bound);
+    assume_rows(&h, &prev, &row, base, adv_bound, lines_lt_2_63);
 
     let mut p = program(encoding, line_encoding, prev, row, Machine::new(h, regs_of(base, &prev, h.version)));
     p.generate_row();
@@ -429,7 +435,7 @@ macro_rules! row_harness {
     ($name:ident, $max_ops:expr, $min_len:expr) => {
         #[kani::proof]
         fn $name() {
-            check_row($min_len, $max_ops, true, ADV48, false);
+            check_row($min_len, $max_ops, false, ADV48, false);
         }
     };
 }
@@ -473,18 +479,32 @@ fn x_linegen_probes() {
     check_row(2, 4, true, ADV48, true);
 }
 
+/// FINDING harness (F-wline-2), expected to FAIL on the pinned tree: lines are u64 in the API, `row.line as i64 -
+/// prev_row.line as i64` overflows / yields the wrong advance when the two lines straddle 2^63.  Registered disabled.
+#[kani::proof]
+fn k_linegen_f_line63() {
+    check_row_dom(1, 1, true, ADV48, false, false);
+}
+
+/// FINDING harness (F-wline-3), expected to FAIL on the pinned tree: no bound on the address advance; `address_advance *
+/// max_ops` (op_advance) and `special + op_advance * line_range` (generate_row) overflow.  Registered disabled.
+#[kani::proof]
+fn k_linegen_f_adv56() {
+    check_row_dom(1, 4, true, None, true, false);
+}
+
 // ------------------------------------------------------------------------------------------------ end_sequence
 /// `end_sequence(address_offset)`: (advance_pc?) end_sequence appends exactly one row - the previous row's registers at
 /// (base + address_offset, row.op_index) with end_sequence set - and leaves the machine and both writer rows in the initial
 /// state of table 6.4 ("Only the address_offset and op_index fields of the current row are used").
 fn check_endseq(min_len: u8, max_ops: u8) {
-    let (encoding, line_encoding, h) = any_header(min_len, max_ops, true);
+    let (encoding, line_encoding, h) = any_header(min_len, max_ops, false);
     let prev = any_row();
     let row = any_row();
     let address_offset: u64 = kani::any();
     let base: u64 = kani::any();
     let at = LineRow { address_offset, ..row };
-    assume_rows(&h, &prev, &at, base, ADV48);
+    assume_rows(&h, &prev, &at, base, ADV48, true);
 
     let mut p = program(encoding, line_encoding, prev, row, Machine::new(h, regs_of(base, &prev, h.version)));
     p.end_sequence(address_offset);
@@ -522,7 +542,7 @@ fn k_linegen_endseq() {
 /// for base = a.  (Mid-sequence set_address: F-wline-4, not restated here.)
 #[kani::proof]
 fn k_linegen_setaddr() {
-    let (encoding, line_encoding, h) = any_header(1, 4, true);
+    let (encoding, line_encoding, h) = any_header(1, 4, false);
     let init = LineRow::initial_state(encoding, line_encoding);
     let a: u64 = kani::any();
     let mut p = program(encoding, line_encoding, init, init, Machine::new(h, Machine::initial(&h)));
